@@ -50,13 +50,16 @@ def rule_r1(F, rep):
             rep.violation(R, "%s|no-ctor|%s" % (owner, variant), "%s no longer constructs State::%s" % (owner, variant))
     # stack_trace_len writers
     ws = cg.who_writes_field(F, EVAL, "stack_trace_len", crates=lang)
-    allowed_w = {"<%s>::inc_trace_len" % EVAL, "<%s>::dec_trace_len" % EVAL}
+    # the two counter primitives, and the only functions allowed to call them (a primitive inlined into one of those is the same
+    # discipline: the counter moves only inside the trace-item API and the dispatcher)
+    allowed_w = {"<%s>::inc_trace_len" % EVAL, "<%s>::dec_trace_len" % EVAL,
+                 "<%s>::push_trace_item" % EVAL, "<%s>::delay_trace_item" % EVAL, "<%s>::run" % EVAL}
     for fn, bb, si, s in ws:
         ok = fn.q in allowed_w
         rep.ob(R, "write|stack_trace_len|%s" % fn.q, ok, {"fn": fn.q})
         if not ok:
             rep.violation(R, "%s|writes|stack_trace_len" % fn.q, "Evaluator.stack_trace_len is written outside "
-                          "inc_trace_len/dec_trace_len", fn.body.span(s["sp"]))
+                          "the trace-item API (inc_trace_len/dec_trace_len, push_trace_item, delay_trace_item, the dispatcher)", fn.body.span(s["sp"]))
     rep.floor(R, len(ws), 2, "stack_trace_len writers")
     # inc/dec callers
     for name, owners in (("inc_trace_len", {"push_trace_item", "run"}), ("dec_trace_len", {"delay_trace_item", "run"})):
